@@ -60,6 +60,8 @@ type Case struct {
 	// value instead of a string) and Subject.Organization
 	DN  []string `json:",omitempty"`
 	Org []string `json:",omitempty"`
+	// the provisioner has forceCN (an empty common name becomes the first DNS name of the certificate)
+	Force bool `json:",omitempty"`
 }
 
 var (
@@ -67,6 +69,7 @@ var (
 	fps  [3]string
 	ca   *fixture.CA
 	prov *provisioner.ACME
+	provForce *provisioner.ACME
 )
 
 func setup() error {
@@ -88,6 +91,7 @@ func setup() error {
 		&provisioner.ACME{Type: "ACME", Name: "acme-all", Challenges: []provisioner.ACMEChallenge{
 			provisioner.HTTP_01, provisioner.DNS_01, provisioner.TLS_ALPN_01, provisioner.DEVICE_ATTEST_01}},
 		&provisioner.ACME{Type: "ACME", Name: "acme-dns", Challenges: []provisioner.ACMEChallenge{provisioner.DNS_01}},
+		&provisioner.ACME{Type: "ACME", Name: "acme-force", ForceCN: true},
 	}})
 	if err != nil {
 		return err
@@ -99,6 +103,12 @@ func setup() error {
 	var ok bool
 	if prov, ok = p.(*provisioner.ACME); !ok {
 		return fmt.Errorf("provisioner acme is %T", p)
+	}
+	if p, err = ca.Auth.LoadProvisionerByName("acme-force"); err != nil {
+		return err
+	}
+	if provForce, ok = p.(*provisioner.ACME); !ok {
+		return fmt.Errorf("provisioner acme-force is %T", p)
 	}
 	return nil
 }
@@ -250,6 +260,8 @@ func errClass(err error) string {
 			return "ise"
 		case acme.ErrorMalformedType.String():
 			return "malformed"
+		case acme.ErrorRejectedIdentifierType.String():
+			return "refused" // the authority refused to sign
 		}
 		return "acme:" + t
 	}
@@ -311,6 +323,10 @@ func (k *Case) runFinalize(csr *x509.CertificateRequest) (out string) {
 		}
 	}()
 	now := time.Now().UTC().Truncate(time.Second)
+	prov := prov
+	if k.Force {
+		prov = provForce
+	}
 	o := &acme.Order{
 		ID: "ord", AccountID: "acc", ProvisionerID: prov.GetID(), Status: acme.StatusReady,
 		ExpiresAt: now.Add(time.Hour), Identifiers: acmeIDs(k.IDs),
@@ -401,7 +417,27 @@ func (k *Case) runFinalize(csr *x509.CertificateRequest) (out string) {
 		}
 		return "acceptwire:" + c.X(leaf.Subject.CommonName) + ":" + c.X(org) + ":" + c.List(names)
 	}
-	return "accept:" + tmpl + ":" + c.X(leaf.Subject.CommonName) + ":" + c.List(names)
+	// the property on the leaf itself: a common name is one of the certificate's names (DNS name up to
+	// ASCII case, IP address by value, permanent identifier), never any other string
+	viol := ""
+	if cn := leaf.Subject.CommonName; cn != "" {
+		ok := false
+		for _, d := range all.DNSNames {
+			ok = ok || asciiLower(d) == asciiLower(cn)
+		}
+		if ip := net.ParseIP(cn); ip != nil {
+			for _, x := range all.IPAddresses {
+				ok = ok || x.Equal(ip)
+			}
+		}
+		for _, p := range all.PermanentIdentifiers {
+			ok = ok || p.Identifier == cn
+		}
+		if !ok {
+			viol = " VIOL:common-name-is-not-a-name-of-the-certificate"
+		}
+	}
+	return "accept:" + tmpl + ":" + c.X(leaf.Subject.CommonName) + ":" + c.List(names) + viol
 }
 
 func (k *Case) emit(o *c.Out) {
@@ -457,6 +493,9 @@ func (k *Case) emit(o *c.Out) {
 				}
 			}
 		}
+		if k.Force {
+			tail = " force=1" + tail
+		}
 		line := fmt.Sprintf("kind=fin ids=%s fps=%s cfp=%s cn=%s cnip=%s dns=%s ips=%s em=%d uris=%s dn=%s org=%s%s",
 			idsField(k.IDs), c.List(fpl), c.Opt(cfp, err == nil), c.X(csr.Subject.CommonName),
 			ipHex(net.ParseIP(csr.Subject.CommonName)), xs(csr.DNSNames), c.List(ips),
@@ -475,7 +514,9 @@ func (k *Case) emit(o *c.Out) {
 // ---------- generators ----------
 
 var dnsPool = []string{"a.example.com", "b.example.com", "example.com", "*.example.com", "www.example.org", "host.local",
-	"x1.test", "zz.example.com", "aa.example.com", "a.example.co", "xn--bcher-kva.example", "kiwi.example.com"}
+	"x1.test", "zz.example.com", "aa.example.com", "a.example.co", "xn--bcher-kva.example", "kiwi.example.com",
+	// 64 and 72 characters (ub-common-name is 64): nothing may cut a name
+	"a" + strings.Repeat("b", 51) + ".example.com", "a" + strings.Repeat("c", 59) + ".example.com"}
 var ipPool = []string{"10.0.0.1", "10.0.0.2", "192.168.1.7", "127.0.0.1", "::1", "fd00::1", "2001:db8::5", "1.2.3.4", "0.0.0.0", "255.255.255.255", "::", "::ffff:0:1"}
 var pidPool = []string{"device-1234", "SN:0001", "a.example.com", "10.0.0.1", "x", "*.device-1234"}
 var emailPool = []string{"root@example.com", "a@a.example.com"}
@@ -606,6 +647,12 @@ func genFin(r *c.Rng) *Case {
 		}
 		if r.Chance(1, 2) { // attested CSRs normally carry no names
 			k.DNS, k.IPs = nil, nil
+		}
+	}
+	if r.Chance(1, 6) { // a provisioner with forceCN, mostly with a CSR that has no common name
+		k.Force = true
+		if r.Chance(3, 4) {
+			k.CN = ""
 		}
 	}
 	// permutation
@@ -842,6 +889,14 @@ func corner() []*Case {
 		{Kind: "fin", Key: 1, IDs: []ID{d("a.example.com")}, DNS: []string{"a.example.com", "b.example.com"}},
 		{Kind: "fin", Key: 1, IDs: []ID{d("a.example.com"), d("b.example.com")}, DNS: []string{"a.example.com"}},
 		{Kind: "fin", Key: 1, IDs: []ID{d("a.example.com")}, DNS: []string{"a.example.com"}, CN: "b.example.com"},
+		// forceCN: the first DNS name of the certificate becomes the common name, whole; nothing to force without a DNS name
+		{Kind: "fin", Key: 1, Force: true, IDs: []ID{d("zz.example.com"), d("a.example.com")}, DNS: []string{"zz.example.com", "a.example.com"}},
+		{Kind: "fin", Key: 1, Force: true, IDs: []ID{d("a" + strings.Repeat("c", 59) + ".example.com")}, DNS: []string{"a" + strings.Repeat("c", 59) + ".example.com"}},
+		{Kind: "fin", Key: 1, Force: true, IDs: []ID{d("*." + strings.Repeat("w", 60) + ".example.com"), d("zz.example.com")}, DNS: []string{"zz.example.com", "*." + strings.Repeat("w", 60) + ".example.com"}},
+		{Kind: "fin", Key: 1, Force: true, IDs: []ID{d("a.example.com")}, DNS: []string{"a.example.com"}, CN: "A.example.com"},
+		{Kind: "fin", Key: 1, Force: true, IDs: []ID{i("10.0.0.1")}, IPs: []string{"10.0.0.1"}},
+		{Kind: "fin", Key: 1, Force: true, IDs: []ID{p("device-1234")}, FPs: []int{1}},
+		{Kind: "fin", Key: 1, Force: true, IDs: []ID{p("device-1234")}, FPs: []int{1}, CN: "device-1234"},
 		// C13-F5 (fixed in f1b3472): a common name that is not the validated name but lower-cased onto it (KELVIN SIGN, I WITH DOT ABOVE)
 		{Kind: "fin", Key: 1, IDs: []ID{d("kiwi.example.com")}, DNS: []string{"kiwi.example.com"}, CN: "\u212aiwi.example.com"},
 		{Kind: "fin", Key: 1, IDs: []ID{d("a.example.io")}, CN: "a.example.\u0130o"},
